@@ -4,6 +4,10 @@ import Operon.Gen.MetabolismConsts
 /-! Line-protocol driver for the energy-ledger model (C04).
 
     new budget gtp nadh maxDebt rateNum rateDen      -> ok <id>
+    newr budget gtp nadh maxDebt rateNum rateDen regenNum regenDen -> ok <id>   (regeneration_rate = regenNum/regenDen; when
+                                                         > 0 the store owns a background regeneration loop)
+    tick id                                          -> <ret> | <store>            one pass of that loop: regenerate(int(rate));
+                                                         a store without a loop: nothing happens
     consume id cost cur allowDebt prio               -> <ret> | <store>            ## consume:<branch>
     regen id n cur                                   -> <ret> | <store>
     transfer src dst n cur                           -> <ret> | <src store> | <dst store>
@@ -79,6 +83,7 @@ def Script.obs (sc : Script) (count : Nat) : Obs := fun st =>
 structure DSt where
   sys : Sys := []
   scripts : List (Script × Nat) := []     -- per store: script and number of calls it has seen
+  regen : List (Nat × Nat) := []          -- per store: regeneration_rate as num/den
 
 def DSt.obs (d : DSt) : Nat → Obs := fun j =>
   match d.scripts[j]? with
@@ -172,8 +177,16 @@ def stepLine (d : DSt) (toks : List String) : DSt × String :=
     match nat? b, nat? g, nat? n, nat? md, nat? rn, nat? rd with
     | some b, some g, some n, some md, some rn, some rd =>
       if rd = 0 then (d, "bad-op")
-      else ({ sys := sys ++ [Store.fresh b g n md rn rd], scripts := d.scripts ++ [(.none, 0)] }, s!"ok {sys.length}")
+      else ({ sys := sys ++ [Store.fresh b g n md rn rd], scripts := d.scripts ++ [(.none, 0)],
+              regen := d.regen ++ [(0, 1)] }, s!"ok {sys.length}")
     | _, _, _, _, _, _ => (d, "bad-op")
+  | ["newr", b, g, n, md, rn, rd, gn, gd] =>
+    match nat? b, nat? g, nat? n, nat? md, nat? rn, nat? rd, nat? gn, nat? gd with
+    | some b, some g, some n, some md, some rn, some rd, some gn, some gd =>
+      if rd = 0 || gd = 0 then (d, "bad-op")
+      else ({ sys := sys ++ [Store.fresh b g n md rn rd], scripts := d.scripts ++ [(.none, 0)],
+              regen := d.regen ++ [(gn, gd)] }, s!"ok {sys.length}")
+    | _, _, _, _, _, _, _, _ => (d, "bad-op")
   | "obs" :: i :: rest =>
     let sc : Option Script :=
       match rest with
@@ -192,9 +205,18 @@ def stepLine (d : DSt) (toks : List String) : DSt × String :=
     let p : Option Quo := if natD debt > 0 ∧ cap' ≠ 0 then some ⟨natD debt, cap'⟩ else none
     (d, showState (floatCls r p))
   | _ =>
-    match parseOp toks with
+    let parsed : Option (Option Op) :=
+      match toks with
+      | ["tick", i] => (nat? i).map fun i =>
+        match d.regen[i]? with
+        | some (gn, gd) => if gn > 0 then some (Op.tick i (gn / gd)) else Option.none
+        | Option.none => some (Op.tick i 0)          -- no such store: answered like any other op on a missing store
+      | _ => (parseOp toks).map some
+    match parsed with
     | none => (d, "bad-op")
-    | some op =>
+    | some Option.none =>
+      (d, joinSp ["none", "|", showAt sys (natD (toks.getD 1 "0")), "|", "cb", "[]"] ++ " ## tick:noloop")
+    | some (some op) =>
       let obs := d.obs
       let r := step floatCls obs sys op
       -- only an installed observer is called (`if self.on_state_change:`)
@@ -204,8 +226,9 @@ def stepLine (d : DSt) (toks : List String) : DSt × String :=
         | some (sc, n) => acc.set c.1 (sc, n + 1) | Option.none => acc) d.scripts
       let shown := (opStores op).map (showAt r.1)
       let cb := showList (calls.map fun c => s!"{c.1}:{showState c.2}")
-      ({ sys := r.1, scripts := scripts },
+      ({ d with sys := r.1, scripts := scripts },
         joinSp ([showRet r.2] ++ shown.flatMap (fun s => ["|", s]) ++ ["|", "cb", cb]) ++ " ## " ++ tagsOf sys op r.2
+          ++ (match toks with | "tick" :: _ => " tick:pass" | _ => "")
           ++ (if calls.isEmpty then "" else " cb:called")
           ++ (match r.2 with | .raised (.observer _) => " cb:raised" | _ => ""))
 
